@@ -97,7 +97,7 @@ fn run_step(step: &Step, out: File, err: File) -> StepRes {
             let stdin_file = match &step.stdin {
                 Some(p) => match raw_open_ro(p) {
                     Some(f) => {
-                        seams::register_fd(f.as_raw_fd(), FdClass::In);
+                        seams::register_fd_path(f.as_raw_fd(), FdClass::In, p);
                         f
                     }
                     None => harness_die("stdin file missing"),
@@ -292,6 +292,7 @@ pub fn child_main(req_path: &str) -> ! {
     fin.short_write_split_utf8 = d.stats.short_write_split_utf8;
     fin.bytes_read = d.stats.bytes_read;
     fin.bytes_written = d.stats.bytes_written;
+    fin.hard_faulted = d.stats.hard_faulted.clone();
     let line = serde_json::to_string(&fin).unwrap_or_else(|_| String::from("{}"));
     seams::raw_write_all(meta_fd, format!("{{\"final\":{line}}}\n").as_bytes());
     unsafe { libc::_exit(0) }
